@@ -24,17 +24,55 @@ SPONGE = [
     ("refuse", "fn f(&mut self, input: &[BFieldElement]) -> u64 { let x = input.iter().filter(|x| true).take(3); 1 }", None),   # unknown adaptor
     ("refuse", "fn f(&mut self, input: &[BFieldElement]) -> u64 { let x = iter::repeat(&BFieldElement::ZERO).collect_vec(); 1 }", None),   # infinite iterator collected
     ("refuse", "fn f(&mut self, n: usize) -> u64 { let x = if n == 0 { self.sq() } else { self.sq() }; 1 }", None),   # &mut-self call with a value under `if`
-    ("refuse", "fn f(&mut self, n: usize) -> Vec<u64> { (0..n).flat_map(|_| self.sq()).collect_vec() }", None),      # closure that mutates self
+    # BEGIN P10: `(lit..var).flat_map(|_| self.m()).collect_vec()` at the head of a statement's method chain is the loop it is;
+    # slice chunks / take / map(pure closure).collect(); every neighbouring shape is refused
+    ("ok", "fn f(&mut self, n: usize) -> Vec<BFieldElement> { (0..n).flat_map(|_| self.sq()).collect_vec() }", "fm_acc_1 ++ [fm_x_1]"),
+    ("ok", "fn f(&mut self, n: usize) -> Vec<XFieldElement> { (0..n).flat_map(|_| self.sq()).collect_vec().chunks(3).take(n).map(|e| XFieldElement::new([e[0], e[1], e[2]])).collect() }", "(TF.RustIter.chunks 3 fm_acc_1).take n"),
+    ("ok", "fn f(&mut self, v: Vec<BFieldElement>, n: usize) -> Vec<XFieldElement> { v.chunks(3).take(n).map(|e| XFieldElement::new([e[0], e[1], e[2]])).collect() }", "decide (2 < e.length)"),
+    ("refuse", "fn f(&mut self, n: usize) -> Vec<BFieldElement> { (0..n).flat_map(|i| self.sq()).collect_vec() }", None),          # closure binds its parameter
+    ("refuse", "fn f(&mut self, n: usize) -> Vec<BFieldElement> { (0..n).flat_map(|_| self.sq()).take(3).collect_vec() }", None),  # lazily consumed: not the full loop
+    ("refuse", "fn f(&mut self, n: usize) -> Vec<BFieldElement> { (0..n).flat_map(|_| { self.sq() }).collect_vec() }", None),      # block closure
+    ("refuse", "fn f(&mut self, n: usize) -> Vec<BFieldElement> { (0..n + 1).flat_map(|_| self.sq()).collect_vec() }", None),      # range bound is not a variable
+    ("refuse", "fn f(&mut self, n: usize) -> Vec<BFieldElement> { (0..n).flat_map(|_| self.sq()).collect() }", None),              # collect() is not collect_vec()
+    ("refuse", "fn f(&mut self, n: usize) -> usize { let k = n + (0..n).flat_map(|_| self.sq()).collect_vec().len(); k }", None),   # not the head of the chain
+    ("refuse", "fn f(&mut self, v: Vec<BFieldElement>, n: usize) -> Vec<XFieldElement> { v.chunks(3).map(|e| { let a = e[0]; XFieldElement::new([a, a, a]) }).collect() }", None),   # block closure
+    ("refuse", "fn f(&mut self, v: Vec<BFieldElement>, n: usize) -> Vec<BFieldElement> { v.chunks(3).map(|e| self.sq()).collect() }", None),   # closure that mutates self
+    ("refuse", "fn f(&mut self, v: Vec<BFieldElement>, n: usize) -> u64 { let it = v.chunks(3).map(|e| e[0]); 1 }", None),        # map that is never collected
+    ("refuse", "fn f(&mut self, v: Vec<BFieldElement>, n: usize) -> Vec<BFieldElement> { v.iter().filter_map(|e| e).collect() }", None),   # another adaptor
+    # END P10
 ]
 OPAQUE = [
     ("ok", "fn f(c: u64, old: Vec<Digest>, x: Digest) -> (Vec<Digest>, MmrMembershipProof) { let mut p = old; p.push(x); let mut mp = MmrMembershipProof::new(vec![]); let mut k = c; while k != 0 { let a = p.pop().unwrap(); let b = p.pop().unwrap(); mp.authentication_path.push(b); p.push(Tip5::hash_pair(b, a)); k -= 1; } (p, mp) }", "(H b a)"),
     ("ok", "fn f(ds: &[Digest]) -> Vec<Digest> { let n = ds.len(); let mut nodes = vec![Digest::default(); 2 * n]; nodes[n..(n + n)].clone_from_slice(&ds[..n]); let mut l: Vec<Digest> = Vec::with_capacity(n); (0..n).into_par_iter().map(|i| { let j = n + i; Tip5::hash_pair(nodes[j * 2], nodes[j * 2 + 1]) }).collect_into_vec(&mut l); l }", "List.range' 0"),
-    ("refuse", "fn f(ds: &[Digest]) -> Digest { let mut it = ds.iter(); let acc = ds[0]; it.rev().fold(acc, |a, &p| Tip5::hash_pair(p, a)) }", None),   # fold with a closure
+    # BEGIN P10: `fold(init, |acc, &x| <pure expression>)` over a finite iterator
+    ("ok", "fn f(ds: &[Digest]) -> Digest { let mut it = ds.iter(); let acc = ds[0]; it.rev().fold(acc, |a, &p| Tip5::hash_pair(p, a)) }", "(List.foldl (fun a p => (H p a)) acc it.reverse)"),
+    ("ok", "fn f(ds: &[Digest]) -> Digest { let mut it = ds.iter(); let acc = ds[0]; it.fold(acc, |a, &p| Tip5::hash_pair(p, a)) }", "(List.foldl (fun a p => (H p a)) acc it)"),
+    ("refuse", "fn f(ds: &[Digest]) -> Digest { let mut it = ds.iter(); let acc = ds[0]; it.rev().fold(acc, |a, p| Tip5::hash_pair(p, a)) }", None),     # `p` is a reference here
+    ("refuse", "fn f(ds: &[Digest]) -> Digest { let mut it = ds.iter(); let acc = ds[0]; it.rev().fold(acc, |a, &p| { Tip5::hash_pair(p, a) }) }", None),   # block closure
+    ("refuse", "fn f(ds: &[Digest]) -> Digest { let mut v = vec![]; let mut it = ds.iter(); let acc = ds[0]; it.fold(acc, |a, &p| { v.push(p); a }) }", None),   # closure writes a captured variable
+    ("refuse", "fn f(ds: &[Digest]) -> Digest { let mut it = ds.iter(); let acc = ds[0]; it.rev().fold(acc, |a, &p| ds[1]) }", None),   # closure body with a run-time check
+    ("refuse", "fn f(ds: &[Digest]) -> Digest { let mut it = ds.iter(); let acc = ds[0]; it.rev().try_fold(acc, |a, &p| Tip5::hash_pair(p, a)) }", None),   # another adaptor
+    # END P10
     ("refuse", "fn f(ds: &[Digest], H: u64) -> Digest { ds[0] }", None),                                           # clashes with an added parameter
     ("refuse", "fn f(a: Digest, b: Digest) -> bool { a == b }", None),                                             # no equality on opaque digests
     ("refuse", "fn f(a: Digest) -> Digest { Digest::new(a.values()) }", None),                                     # digests are opaque here
     ("refuse", "fn f(ds: &[Digest]) -> Vec<Digest> { let mut l: Vec<Digest> = Vec::new(); (0..3).into_par_iter().map(|i| { l.push(ds[i]); ds[i] }).collect_into_vec(&mut l); l }", None),   # closure writes a captured variable
 ]
+
+
+# BEGIN P10: the abstract finite field (`Self` opaque, operations as parameters)
+FP = [("f_zero", "digest"), ("f_one", "digest"), ("f_mul", "hfun"), ("f_is_zero", "pfun"), ("f_inverse", "ufun"),
+      ("f_inverse_ok", "pfun"), ("d0", "digest")]
+FIELD = [
+    ("ok", "fn f(input: Vec<Self>) -> Vec<Self> { let n = input.len(); if n == 0 { return Vec::<Self>::new(); } let mut s: Vec<Self> = vec![Self::zero(); n]; let mut acc = Self::one(); for i in 0..n { assert!(!input[i].is_zero(), \"zero\"); s[i] = acc; acc *= input[i]; } acc = acc.inverse(); s[0] = acc * s[0]; s }", "(f_inverse_ok acc)"),
+    ("refuse", "fn f(input: Vec<Self>) -> Self { input[0] + input[1] }", None),                       # `+` is not in the record
+    ("refuse", "fn f(input: Vec<Self>) -> bool { input[0] == input[1] }", None),                      # no equality on the abstract field
+    ("refuse", "fn f(input: Vec<Self>) -> Vec<Self> { Vec::<Self>::with_capacity(3) }", None),        # another turbofish path
+    ("refuse", "fn f(input: Vec<Self>) -> Self { input[0].square() }", None),                         # a method that is not in the record
+    ("refuse", "fn f(input: Vec<Self>, f_mul: u64) -> Self { input[0] }", None),                      # clashes with an added parameter
+    ("refuse", "fn f(input: Vec<Self>) -> Self { let k = 3; input[0] * k }", None),                   # field element times integer
+]
+# END P10
 
 
 def setup(opaque):
@@ -65,11 +103,15 @@ def main():
     L.lean_ty = T.make_lean_ty(saved)
     T.install_patches()
     try:
-        for opaque, cases in ((False, SPONGE), (True, OPAQUE)):
+        for opaque, cases in ((False, SPONGE), (True, OPAQUE), ("field", FIELD)):      # P10: FIELD
             for exp, src, marker in cases:
-                tfns, pfns = setup(opaque)
+                tfns, pfns = setup(bool(opaque))
+                T.X["field"] = opaque == "field"
                 try:
-                    text = T.translate_fn4(src, "f", "f", "test", {}, tfns, pfns, L.DEFAULT_FUEL,
+                    if opaque == "field":
+                        text = T.translate_fn4(src, "f", "f", "test", {}, tfns, pfns, L.DEFAULT_FUEL, self_ty="digest", pre_params=FP)[0]
+                    else:
+                        text = T.translate_fn4(src, "f", "f", "test", {}, tfns, pfns, L.DEFAULT_FUEL,
                                            self_ty=None if opaque else ST, pre_params=HD + [("digest_default", "digest")] if opaque else ())[0]
                     got = "ok"
                 except Unsupported as ex:
@@ -82,6 +124,7 @@ def main():
                     print(f"FAIL expected {exp} got {got}: {src[:90]}\n      {text[:300]}")
     finally:
         L.lean_ty = saved
+        T.X["field"] = False
         T.remove_patches()
     print("rs2lean_bt4 self-test:", "ok" if not bad else f"{bad} failures")
     return 1 if bad else 0
